@@ -114,3 +114,30 @@ func TestRegressionEmptyObjectNameFetch(t *testing.T) {
 		}},
 	})
 }
+
+// Outside a TEE the CLI's backend has no quote provider. The extract command used to wrap that nil in
+// a non-nil provider, so every input that yields no object name (unknown format, bare certificate
+// table, short measurement, no quote at all) crashed instead of failing (repaired in 33284ea).
+func TestRegressionCLIWithoutQuoteProvider(t *testing.T) {
+	const sub = "regression/cli-without-quote-provider"
+	ev.Rule(sub, "hand-written replays through the CLI `extract` command with Backend.Provider == nil: garbage quote file, bare certificate table without the GCE entry, go-tpm-tools wrapper with a 32-byte measurement, no quote file at all, and a raw report with the GCE entry (which has to come back); recording getter, with and without --force_fetch; oracle: the sources oracle (no panic, I1-I3); all non-trivial")
+	env := newEnv(t)
+	for _, q := range []quoteSpec{
+		{Kind: "garbage", Seed: 1},
+		{Kind: "certtable", MLen: fullLength, Seed: 1},
+		{Kind: "snp", Format: "tpm", MLen: 32, Seed: 1},
+		{Kind: "none"},
+		{Kind: "snp", Format: "raw", MLen: fullLength, Seed: 1, Entry: true},
+	} {
+		for _, force := range []bool{false, true} {
+			c := &srcCase{
+				Log:          logSpec{Mode: "none"},
+				Manufacturer: extract.GCEFirmwareManufacturer,
+				Quote:        validQuote(q),
+				Provider:     "absent", ProviderQuote: quoteSpec{Kind: "none"},
+				Getter: "ok", Force: force, CLI: true,
+			}
+			evalCase(t, sub, c, env)
+		}
+	}
+}
